@@ -488,7 +488,7 @@ def run(ctx):
                 kind = X.handle_verdict(ctx, PID, v, xflagsets, open_map, "an IBTP without a verified proof changed state or got a SUCCESS receipt", rep,
                                         relevant=set(X.XFLAGS))
                 if kind == "mismatch":
-                    ctx.broken("correspondence:judge_proof", "first differing block: " + json.dumps(rep)[:1500])
+                    ctx.broken("correspondence:judge_proof", "first differing block: replay=%s %s" % (X.save_mismatch(ctx, rep), json.dumps(rep)[:600]))
                 elif kind == "domain":
                     ctx.broken("correspondence:judge_proof(domain)", json.dumps(rep)[:800])
             ctx.extra["proof_distribution"] = kinds
@@ -511,7 +511,7 @@ def run(ctx):
                 if v[0] == 2:
                     ctx.violation("CheckProof accepted a relayed IBTP without more than (n-1)/3 distinct registered signers", rep)
                 elif v[0] != 0:
-                    ctx.broken("correspondence:judge_verify", "first differing case: " + json.dumps(rep)[:1500])
+                    ctx.broken("correspondence:judge_verify", "first differing case: replay=%s %s" % (X.save_mismatch(ctx, rep), json.dumps(rep)[:600]))
             ctx.extra["multisig"] = dict(cases=len(mrows), accepted=acc)
         # --- entry points
         erows = []
@@ -534,7 +534,7 @@ def run(ctx):
                     continue
                 kind = X.handle_verdict(ctx, PID, v, eflagsets, open_map, "an IBTP was processed without a verified proof through a plain invocation", rep)
                 if kind == "mismatch":
-                    ctx.broken("correspondence:judge_entry", "first differing history: " + json.dumps(rep)[:1500])
+                    ctx.broken("correspondence:judge_entry", "first differing history: replay=%s %s" % (X.save_mismatch(ctx, rep), json.dumps(rep)[:600]))
     return ctx.finish(rule="(a) blocks of IBTP transactions (requests and receipts) from chains whose master rule accepts / errors (Fabric, SimFabric fed junk; "
                            "missing code) / answers by the first proof byte (wasm) / is missing / not available / second in the list, from unregistered chains, with "
                            "proofs absent / hash-mismatching / fine, wrong indexes, foreign tx.To, rule and registration changes between blocks; "
